@@ -198,6 +198,16 @@ def run_plan(plan, seed, choices=None):
                     break
                 px = plan_nodes.index(x)
                 if px < pos:
+                    if plan['exec'].get('spec'):
+                        # two executions of one request (the initial one and a speculative one whose timer fired before the initial
+                        # send - a clock jump or a descheduled caller) take their hosts from the plan in order but write them to the
+                        # wire concurrently: attempts that reached the nodes within 10 ms of each other are not ordered
+                        tx = min(e['t'] for e in es if e['node'] == x)
+                        tprev = min(e['t'] for e in es if e['node'] == plan_nodes[pos])
+                        if abs(tx - tprev) < 0.01:
+                            sim.probe('concurrent_executions_sent_in_either_order')
+                            pos = max(pos, px)
+                            continue
                     V.add('C17/order', 'out-of-plan-order', 'request %d (page epoch %d): nodes %r, plan %r' % (i, ep, seq, plan_nodes))
                     break
                 pos = px
